@@ -152,6 +152,9 @@ func runC03(p *core.Prog, r *core.Report) {
 	r6 := r.Rule("C03.R6", "in the ordered scan of the primary attribute a filter mismatch ends the search only for operators whose failure is monotone: never for NUM_GT, NUM_GE or STRING_NOT_EQUAL (a value below a lower bound says nothing about the following keys)", 1)
 	mismatchStopsOnlyMonotone(p, r, r6)
 	// ---------------- R7 the start position of a PREFIX scan
+	r9 := r.Rule("C03.R9", "while the search walks the index of the requested attribute, a filter is matched against the value taken from the index KEY only if it is of the primary filter's kind (numeric / text): the key holds the value in that one form; filters of the other kind on the same attribute go to the per-attribute check", 2)
+	keyValueMatchedBySameKindOnly(p, r, r9)
+	r.Explain += " (R9) in the handler's primary-key loop the two matchers fed with the key's value (intBytesMatch; combineValues on the key value) are reached only behind the test 'this filter's kind == the primary filter's kind'; without it a numeric filter is compared with plain text (and a nil bound) or a text filter with the 33-byte encoding, and the same query answers differently when ordered by the attribute and when ordered by ID."
 	r8 := r.Rule("C03.R8", "the parser of numeric filter bounds (package signed256) uses the value of a strconv parser only where that parser returned no error (shared with C05.R7)", 1)
 	parsedValueOnlyAfterErrCheck(p, r, r8)
 	r.Explain += " (R8, shared with C05.R7) the parser of numeric filter bounds uses the result of the word-sized strconv parser only where it returned no error; otherwise the bound is the clamped 2^64-1 and the filter compares against another number than the one stored values were indexed under."
@@ -402,4 +405,63 @@ func parsedFlagNotStale(p *core.Prog, r *core.Report, h *core.RuleH) {
 	if n == 0 {
 		h.OKTrivial("pkg/core/object.MetaDataKVHandler#remembered-parse", "-", "the handler remembers no parse: every comparison parses the current value")
 	}
+}
+
+func keyValueMatchedBySameKindOnly(p *core.Prog, r *core.Report, h *core.RuleH) {
+	var body *ssa.Function
+	if mk := p.Func("pkg/core/object.MetaDataKVHandler"); mk != nil {
+		for _, a := range mk.AnonFuncs {
+			if len(core.CallSites([]*ssa.Function{a}, func(s core.Site) bool { return s.Name == "pkg/core/object.intBytesMatch" })) > 0 {
+				body = a
+			}
+		}
+	}
+	if body == nil {
+		r.Fatalf("C03.R9: the key handler returned by MetaDataKVHandler (with intBytesMatch) not found")
+		return
+	}
+	isFree := func(v ssa.Value, name string) bool {
+		u, ok := v.(*ssa.UnOp)
+		if !ok || u.Op != token.MUL {
+			return false
+		}
+		fv, ok := u.X.(*ssa.FreeVar)
+		return ok && fv.Name() == name
+	}
+	isKind := func(v ssa.Value) bool {
+		c, ok := v.(*ssa.Call)
+		return ok && core.CalleeName(c) == "pkg/core/object.IsIntegerSearchOp"
+	}
+	same := func(op token.Token) func(*ssa.Function, ssa.Value) bool {
+		return func(_ *ssa.Function, v ssa.Value) bool {
+			bo, ok := v.(*ssa.BinOp)
+			if !ok || bo.Op != op {
+				return false
+			}
+			return isKind(bo.X) && isFree(bo.Y, "intPrimMatcher") || isKind(bo.Y) && isFree(bo.X, "intPrimMatcher")
+		}
+	}
+	gs := []core.Guard{
+		{Name: "same-kind(ne-form)", Comps: []core.Comp{{Result: -1, Kind: core.IsFalse}}, Value: same(token.NEQ)},
+		{Name: "same-kind(eq-form)", Comps: []core.Comp{{Result: -1, Kind: core.IsTrue}}, Value: same(token.EQL)},
+	}
+	core.CheckEffectsFn(p, h, body, core.EffectRule{Min: 2, Guards: gs,
+		Derived: []core.Derived{{Name: "filter-is-of-the-primary-filters-kind", Alts: [][]string{{gs[0].Name}, {gs[1].Name}}}},
+		Effect: func(_ *core.Prog, in ssa.Instruction) (string, bool) {
+			c, ok := in.(*ssa.Call)
+			if !ok {
+				return "", false
+			}
+			switch core.CalleeName(c) {
+			case "pkg/core/object.intBytesMatch":
+				if isFree(c.Call.Args[0], "primDBVal") {
+					return "key-value-as-integer", true
+				}
+			case "pkg/core/object.combineValues":
+				if isFree(c.Call.Args[1], "primDBVal") {
+					return "key-value-as-text", true
+				}
+			}
+			return "", false
+		}, Need: func(string) []string { return []string{"filter-is-of-the-primary-filters-kind"} }})
 }
